@@ -301,9 +301,9 @@ def run(ctx):
             for c in cases:
                 c["pw_max"] = 16
         else:
-            for _ in range(220):
+            for _ in range(700):
                 cases.append(rand_case(rng, area_cap=2500))
-            for _ in range(12):
+            for _ in range(30):
                 cases.append(rand_case(rng, wh_lo=48, wh_hi=64, nmax=10))
             cases.append(rand_case(rng, wh_lo=64, wh_hi=64, nmax=10, force_grid=True, comp=True))
         run_traces(ctx, cases, batch=ctx.pick(40, 30), need_calibration=True)
